@@ -250,7 +250,7 @@ def split_model(it, args, kw):
 
 # =========================================================================================================================================
 def build(tier, seed):
-    plan = Plan("C32", level="proof")
+    plan = Plan("C32", level="other")
     # (pennylane is NOT imported here: the symbolic obligations do not need it; a worker imports it when it replays a counter-model)
     plan.explanation = ("The real bodies of measure_final_state / measure_with_samples / the packing ends of the sampling helpers / "
                         "simulate are executed symbolically with every per-measurement result an uninterpreted marker value "
@@ -268,13 +268,26 @@ def build(tier, seed):
                               "jax.random.split(key, num): a tuple of num keys"]
     plan.dropped = ["docstrings, annotations, @debug_logger decorators (logging only)"]
     add_measure_final_state(plan, tier)
-    add_measure_final_state_symbolic(plan, tier)
+    # add_measure_final_state_symbolic(plan, tier)   -- NOT registered: the quantified VCs (z3 sequences) are not decided reliably under load
     add_measure_with_samples(plan, tier)
     add_simulate(plan, tier)
     add_sampling_helpers(plan, tier)
     add_interface_converters(plan, tier)
     add_jacobian_products(plan, tier)
     add_native_standin(plan, tier)
+    plan.unverified += [
+        "every number of measurements / shot copies beyond the enumerated shapes (all obligations are size-bounded; a symbolic-length "
+        "version of measure_final_state exists in this file but its quantified VCs are not decided reliably, so it is not registered)",
+        "_group_measurements itself (havocked to any grouping), get_final_state, the one-shot MCM path of simulate (dynamic_one_shot post-"
+        "processing), the unpartitioned body of simulate_tree_mcm (tree traversal, combine_measurements, variance_transform)",
+        "array shapes INSIDE a leaf (broadcast axis position, shot axis of samples): leaves are uninterpreted; only the bounded native "
+        "stand-in looks at the leading broadcast axis",
+        "workflow/execution.py, run.py, qnode.py: only through the bounded native stand-in (default.qubit); other devices (default.mixed, "
+        "lightning, ...) not at all",
+        "Jacobian nesting produced by the gradient transforms' post-processing (TransformJacobianProducts.compute_jacobian / "
+        "execute_and_compute_jvp route through qp.gradients.*), DeviceDerivatives / DeviceJacobianProducts, autograd/jax/torch custom-vjp "
+        "plumbing (pytreeify, jax pure_callback shape structs): only _zero_jvp / _compute_jvps / _compute_vjps and the result converters "
+        "are under contract"]
     return plan
 
 
@@ -1490,12 +1503,11 @@ def add_native_standin(plan, tier):
                           sample="default.qubit, 1-3 measurements x shots {None, 10, (10,20), (5,5,7)} x broadcast {no, 3} x device.execute / qp.execute with "
                                  "numpy, autograd, jax, torch: nesting(result) == SHAPE(n, copies)")
     plan.add(mk(False, "default.qubit x 5 entry points"))
-    if os.environ.get("C32_CANDIDATE"):
-        # candidate defect (reported to the lead, not registered): broadcasted counts are a LIST of dictionaries with numpy / torch and a
-        # TUPLE of dictionaries with autograd / jax (_to_autograd / _to_jax turn every list into a tuple) -- interface-dependent nesting
-        plan.add(mk(True, "default.qubit x 5 entry points, broadcasted counts strict"))
-    plan.unverified.append("container type of a BROADCASTED counts result (one dictionary per batch element): list with numpy / torch, tuple with "
-                           "autograd / jax -- candidate defect, the bounded stand-in treats it as one leaf (set C32_CANDIDATE=1 for the strict comparison)")
+    # open known finding F38: broadcasted counts are a LIST of dictionaries with numpy / torch and a TUPLE of dictionaries with autograd / jax
+    # (_to_autograd / _to_jax turn every list into a tuple) -- interface-dependent nesting; the strict comparison is the finding instance
+    strict_ob = mk(True, "default.qubit x 5 entry points, broadcasted counts strict")
+    strict_ob.finding = "F38"
+    plan.add(strict_ob)
 
 
 # =========================================================================================================================================
@@ -1529,6 +1541,8 @@ def add_measure_final_state_symbolic(plan, tier):
             i = z3.Int(ctx.fresh_name("pi"))
             ctx.assume(z3.Length(r) == z3.Length(meas.term))
             ctx.assume(z3.ForAll([i], z3.Implies(z3.And(i >= 0, i < z3.Length(meas.term)), r[i] == RES(meas.term[i], state, bt, jval(j))), patterns=[r[i]]))
+            # (a ground instance of the same fact, for the single-measurement path that reads entry 0)
+            ctx.assume(z3.Implies(z3.Length(meas.term) > 0, r[0] == RES(meas.term[0], state, bt, jval(j))))
             return SeqV(r, Label, True)
         copies = g["copies"]
         return packed_row(None) if copies is None else tuple(packed_row(j) for j in range(copies))
@@ -1542,6 +1556,8 @@ def add_measure_final_state_symbolic(plan, tier):
                                                  "shots": mk_shots(w, ctx, pattern)})
             ctx.ghost.setdefault("mfs", {})["circuit"] = c
             ctx.ghost["mfs"]["copies"] = copies_of(pattern)
+            # the quantified facts of this obligation (comprehension / callee contract) are used by E-matching on the ground terms of
+            # the goal; model-based instantiation only burns the budget on sequence terms
             return c
         return T("build", mk, gen=lambda rng: {"measurements": ["L0"] * rng.choice([0, 1, 1, 2, 3, 5]),
                                                "shots": {"shot_vector": [{"shots": 3 + 2 * i, "copies": c} for i, c in enumerate(pattern or [])]}})
